@@ -37,6 +37,17 @@ type C15Case struct {
 	Perturb     int      `json:"perturbations,omitempty"`
 	PerturbSeed int64    `json:"perturb_seed,omitempty"`
 	Foreign     bool     `json:"foreign_state"`
+	// Fault: additionally re-run the case with one tool failure and judge the reject log, panics and convergence
+	Fault *faultSpec `json:"fault,omitempty"`
+}
+
+// faultSpec: the K-th ipset / iptables operation of one entry-point call fails once (the tool fails, nothing reaches
+// the kernel).
+type faultSpec struct {
+	Kind   string `json:"kind"`   // ipset | iptables
+	Target string `json:"target"` // sync (the judged full sync) | event
+	Event  int    `json:"event,omitempty"`
+	K      int    `json:"k"`
 }
 
 func (cs *C15Case) clone() *C15Case {
@@ -60,7 +71,7 @@ func (cs *C15Case) size() int {
 // ---- generation ----
 
 var c15Modes = []string{"resync-independent", "resync-mutated", "resync-mutated-policies-persist", "events",
-	"planted-stale", "perturbed", "events+restart", "resync-mutated-policies-persist+restart", "events-cache-ahead"}
+	"planted-stale", "perturbed", "events+restart", "resync-mutated-policies-persist+restart", "events-cache-ahead", "resync-pod-recreated-without-ip"}
 
 func genEvents(rng *rand.Rand, start *Cluster, o genOpts, n int) []Event {
 	m := start.clone()
@@ -160,6 +171,34 @@ func genC15Case(rng *rand.Rand, idx int, o genOpts) *C15Case {
 		cs.Restart = true
 	case "events":
 		cs.Events = genEvents(rng, cs.Before, o, 1+rng.Intn(15))
+	case "resync-pod-recreated-without-ip":
+		// a pod with chain and hook was deleted and re-created under the same name while its events were missed; the new
+		// incarnation is on this node, has no address yet and (half of the cases) other labels, so that the label-based
+		// policy that selected the old one no longer selects it. The policy persists: no policy chain becomes stale.
+		b := cs.Before
+		if len(b.Namespaces) == 0 {
+			b.Namespaces = []NS{{Name: "ns0"}}
+		}
+		ns := b.Namespaces[rng.Intn(len(b.Namespaces))].Name
+		b.Pods = append(b.Pods, Pod{Name: "rc", NS: ns, Labels: lbl("app", "a", "role", "r"), IP: "10.244.1.200", Node: hostName})
+		b.Policies = append(b.Policies, Policy{Name: "rcsel", NS: ns, PodSel: selOf("role", "r"),
+			Types: pick(rng, nil, []string{"Ingress"}, []string{"Egress"}, []string{"Ingress", "Egress"}), Ingress: genRules(rng, 1)})
+		cs.After = b.clone()
+		if rng.Intn(3) == 0 {
+			cs.After = mutateCluster(rng, b, o, true)
+		}
+		if p := cs.After.pod(ns, "rc"); p != nil {
+			p.IP = ""
+			if rng.Intn(2) == 0 {
+				p.Labels = genLabels(rng, podLabelSpace, 0.9) // never carries role=r
+			}
+		} else {
+			cs.After.Pods = append(cs.After.Pods, Pod{Name: "rc", NS: ns, Labels: genLabels(rng, podLabelSpace, 0.9), Node: hostName})
+		}
+		if pol := cs.After.policy(ns, "rcsel"); pol != nil {
+			pol.PodSel = selOf("role", "r") // mutateCluster may have regenerated it
+		}
+		cs.Restart = rng.Intn(2) == 0
 	case "events-cache-ahead":
 		cs.Events = genEvents(rng, cs.Before, o, 2+rng.Intn(14))
 		cs.CacheAhead = 1 + rng.Intn(3)
@@ -528,6 +567,14 @@ func diffGLX(got, want *glxState, cur *Cluster) []diffItem {
 		p := cur.pod(parts[1], parts[0])
 		return p != nil && p.onNode()
 	}
+	ownerSelected := func(comment string) bool {
+		parts := strings.SplitN(comment, "_", 2)
+		if len(parts) != 2 {
+			return false
+		}
+		p := cur.pod(parts[1], parts[0])
+		return p != nil && (len(cur.isolating(p, dirIngress)) > 0 || len(cur.isolating(p, dirEgress)) > 0)
+	}
 	names := func(m interface{}) []string {
 		var ks []string
 		switch mm := m.(type) {
@@ -601,7 +648,10 @@ func diffGLX(got, want *glxState, cur *Cluster) []diffItem {
 		w, ok := want.Pod[n]
 		if !ok {
 			extraPod[n] = true
-			if ownerAlive(got.PodOwner[n]) {
+			if ownerAlive(got.PodOwner[n]) && !ownerSelected(got.PodOwner[n]) {
+				// the pod exists on this node and no policy selects it: its chain has to go whatever its address is
+				add("extra-pod-chain-of-unselected-current-pod", n+" ("+got.PodOwner[n]+")")
+			} else if ownerAlive(got.PodOwner[n]) {
 				add("extra-pod-chain-of-current-pod", n+" ("+got.PodOwner[n]+")")
 			} else {
 				add("extra-pod-chain-of-vanished-pod", n+" ("+got.PodOwner[n]+")")
@@ -825,6 +875,10 @@ type c15Result struct {
 	counters   map[string]int64
 	viols      map[string]*violation
 	nontrivial bool
+	// per entry-point call ("sync", "event:<i>"): operations issued and signatures of rejected commands, fault-free
+	callOps     map[string][2]int
+	callBases   map[string]map[string]bool
+	syncsNeeded int // full syncs until the state equals the fresh manager's, 0: not within maxSyncs
 }
 
 func (r *c15Result) addViol(sig, msg string, obs interface{}) {
@@ -1019,8 +1073,34 @@ func rejectLines(rjs []fakes.Reject) []string {
 const maxSyncs = 4
 
 // evalC15 runs one case with all four monitors.
+// evalC15 runs the case fault-free with all monitors and, if the case names a fault, once more with that fault.
 func evalC15(cs *C15Case) *c15Result {
-	res := &c15Result{counters: map[string]int64{}, viols: map[string]*violation{}}
+	res := evalC15Base(cs)
+	if cs.Fault != nil {
+		fr := evalC15Fault(cs, cs.Fault, res)
+		for k, v := range fr.counters {
+			res.counters[k] += v
+		}
+		for sig, v := range fr.viols {
+			res.viols[sig] = v
+		}
+	}
+	return res
+}
+
+func basesOf(rjs []fakes.Reject, ctx *rejCtx) map[string]bool {
+	m := map[string]bool{}
+	for _, rj := range rjs {
+		if b := rejectBase(rj, ctx); b != "" {
+			m[b] = true
+		}
+	}
+	return m
+}
+
+func evalC15Base(cs *C15Case) *c15Result {
+	res := &c15Result{counters: map[string]int64{}, viols: map[string]*violation{}, callOps: map[string][2]int{},
+		callBases: map[string]map[string]bool{}}
 	w := newWorld()
 	e := newEnv(w)
 	if cs.Foreign {
@@ -1108,7 +1188,10 @@ func evalC15(cs *C15Case) *c15Result {
 		for k := i; k < j; k++ {
 			ev := cs.Events[k]
 			ctx := ctxNow()
+			e.arm("", 0)
 			pi := deliver[k-i]()
+			callID := fmt.Sprintf("event:%d", k)
+			res.callOps[callID] = [2]int{e.ipsetCalls, e.iptCalls}
 			res.counters["events_"+ev.Kind]++
 			if j-i > 1 {
 				res.counters["events_delivered_with_cache_ahead"]++
@@ -1122,7 +1205,9 @@ func evalC15(cs *C15Case) *c15Result {
 			if cs.CacheAhead > 0 {
 				suffix += "-cache-ahead"
 			}
-			judgeRejects(e.takeRejects(), "event-"+ev.Kind+" ("+handler[k-i]+")", suffix, ctx)
+			evRej := e.takeRejects()
+			res.callBases[callID] = basesOf(evRej, ctx)
+			judgeRejects(evRej, "event-"+ev.Kind+" ("+handler[k-i]+")", suffix, ctx)
 		}
 		i = j
 	}
@@ -1179,11 +1264,14 @@ func evalC15(cs *C15Case) *c15Result {
 
 	// (1)+(4): the checked sync
 	ctx := ctxNow()
+	e.arm("", 0)
 	if pi := e.fullSync(); pi != nil {
 		res.addViol(panicSig(pi, ever), "full sync panicked: "+pi.Value, pi)
 	}
+	res.callOps["sync"] = [2]int{e.ipsetCalls, e.iptCalls}
 	res.counters["full_syncs"]++
 	rej1 := e.takeRejects()
+	res.callBases["sync"] = basesOf(rej1, ctx)
 	staleX1 := judgeRejects(rej1, "full-sync", hist, ctx)
 	got1 := observeGLX(e)
 	items1 := diffGLX(got1, want, model)
@@ -1195,6 +1283,7 @@ func evalC15(cs *C15Case) *c15Result {
 			"filter_after_checked_sync": strings.Split(dump1[0], "\n"), "perturbations": perturbLog}
 	}
 	if len(items1) == 0 {
+		res.syncsNeeded = 1
 		res.counters["converged_after_1_sync"]++
 	} else if staleX1 {
 		res.counters["nonconverged_after_rejected_policy_batch"]++
@@ -1266,6 +1355,7 @@ func evalC15(cs *C15Case) *c15Result {
 			items = diffGLX(observeGLX(e), want, model)
 		}
 		if len(items) == 0 {
+			res.syncsNeeded = n
 			res.counters[fmt.Sprintf("converged_after_%d_syncs", n)]++
 		} else {
 			res.counters[fmt.Sprintf("not_converged_after_%d_syncs", maxSyncs)]++
@@ -1302,6 +1392,171 @@ func evalC15(cs *C15Case) *c15Result {
 			res.addViol("c15-foreign-"+kind+"-modified", fmt.Sprintf("foreign %s changed", k),
 				map[string]interface{}{"object": k, "before": foreign0[k], "after": foreign1[k]})
 		}
+	}
+	return res
+}
+
+// evalC15Fault replays the case with one tool failure: the K-th ipset / iptables operation of the targeted call (the
+// judged full sync, or one event handler) fails once. Judged: (a) commands the kernel rejects in that call which the
+// fault-free run of the same call does not have (a batch referencing a missing chain/set, a -X / destroy of something
+// still in use); (b) no panic; (c) once the fault is gone full syncs converge to the fresh manager's state if they do
+// so without the fault.
+func evalC15Fault(cs *C15Case, f *faultSpec, base *c15Result) *c15Result {
+	res := &c15Result{counters: map[string]int64{}, viols: map[string]*violation{}}
+	under := "-under-" + f.Kind + "-op-fault"
+	w := newWorld()
+	e := newEnv(w)
+	if cs.Foreign {
+		if plantForeign(e) != nil {
+			return res
+		}
+	}
+	model := cs.Before.clone()
+	if model == nil {
+		model = &Cluster{}
+	}
+	w.load(model)
+	ever := append([]Policy(nil), model.Policies...)
+	for _, ev := range cs.Events {
+		if ev.Policy != nil {
+			ever = append(ever, *ev.Policy)
+		}
+	}
+	if cs.After != nil {
+		ever = append(ever, cs.After.Policies...)
+	}
+	ctxNow := func() *rejCtx {
+		return &rejCtx{pre: observeGLX(e), cur: model.clone(), raw: e.ipt.Chains("filter"), dump: e.ipt.Dump("filter")}
+	}
+	// judge the faulted call
+	hit := false
+	failedOp := ""
+	judge := func(callID, phaseSuffix, what string, ctx *rejCtx, pi *panicInfo) {
+		if e.failedOp == "" {
+			res.counters["fault_not_reached"]++
+			e.takeRejects()
+			return
+		}
+		hit = true
+		failedOp = e.failedOp
+		res.counters["faults_injected_"+f.Kind]++
+		res.counters["fault_in_"+strings.SplitN(callID, ":", 2)[0]]++
+		res.counters["failed_op:"+e.failedOp]++
+		obs := map[string]interface{}{"failed_operation": e.failedOp, "call": what, "filter_before_the_call": filterLines(ctx)}
+		if pi != nil {
+			obs["panic"] = pi
+			res.addViol(panicSig(pi, ever)+phaseSuffix+under, fmt.Sprintf("%s panicked after %s failed: %s", what, e.failedOp, pi.Value), obs)
+		}
+		rjs := e.takeRejects()
+		for _, rj := range rjs {
+			b := rejectBase(rj, ctx)
+			if b == "" {
+				continue
+			}
+			res.counters["rejects_in_faulted_call_"+rj.Kind]++
+			if base.callBases[callID][b] {
+				continue // the same call has this rejection without the fault
+			}
+			if rj.Op != "restore" && (rj.Kind == "chain-in-use" || rj.Kind == "set-in-use") {
+				// a single best-effort "-X chain" / "ipset destroy" that the kernel refuses because an earlier step of the same
+				// clean-up failed loses nothing and references nothing that does not exist; a refused restore batch is
+				// different: all its rules are lost
+				res.counters["fault_refused_single_cleanup_command:"+strings.TrimPrefix(b, "c15-")]++
+				continue
+			}
+			o := map[string]interface{}{}
+			for k, v := range obs {
+				o[k] = v
+			}
+			o["rejected"] = rejectLines([]fakes.Reject{rj})
+			res.addViol(b+phaseSuffix+under, fmt.Sprintf("%s: after %s failed once (tool error, nothing reached the kernel) galaxy went on "+
+				"and submitted a command the kernel rejects [%s] %s: %s", what, e.failedOp, rj.Kind, rj.Op, rj.Reason), o)
+		}
+	}
+	for i := 0; i < cs.PriorSyncs; i++ {
+		e.fullSync()
+	}
+	for i := 0; i < len(cs.Events); {
+		j := i + 1 + cs.CacheAhead
+		if j > len(cs.Events) {
+			j = len(cs.Events)
+		}
+		var deliver []func() *panicInfo
+		var handler []string
+		for k := i; k < j; k++ {
+			h, d := stageEvent(e, model, cs.Events[k])
+			handler, deliver = append(handler, h), append(deliver, d)
+		}
+		for k := i; k < j; k++ {
+			if f.Target == "event" && f.Event == k {
+				ctx := ctxNow()
+				e.takeRejects()
+				e.arm(f.Kind, f.K)
+				pi := deliver[k-i]()
+				judge(fmt.Sprintf("event:%d", k), "-in-event-handler", fmt.Sprintf("event %d (%s, %s handler)", k, cs.Events[k].Kind, handler[k-i]), ctx, pi)
+				e.arm("", 0)
+			} else {
+				deliver[k-i]()
+			}
+		}
+		i = j
+	}
+	if cs.After != nil {
+		model = cs.After.clone()
+		w.load(model)
+	}
+	if len(cs.Stale) > 0 {
+		if plantStale(e, cs.Stale) != nil {
+			return res
+		}
+	}
+	if cs.Perturb > 0 {
+		perturb(e, cs.Perturb, cs.PerturbSeed)
+	}
+	if cs.Restart {
+		e.restart()
+	}
+	fw := newWorld()
+	fw.load(model)
+	fe := newEnv(fw)
+	if fe.fullSync() != nil {
+		return res
+	}
+	want := observeGLX(fe)
+	e.takeRejects()
+	// the judged sync
+	ctx := ctxNow()
+	if f.Target == "sync" {
+		e.arm(f.Kind, f.K)
+	}
+	pi := e.fullSync()
+	if f.Target == "sync" {
+		judge("sync", "", "full sync", ctx, pi)
+		e.arm("", 0)
+	}
+	e.takeRejects()
+	if !hit {
+		return res
+	}
+	// (c) convergence once the fault is gone
+	n := 1
+	items := diffGLX(observeGLX(e), want, model)
+	for len(items) > 0 && n < 1+maxSyncs {
+		e.fullSync()
+		e.takeRejects()
+		n++
+		items = diffGLX(observeGLX(e), want, model)
+	}
+	switch {
+	case base.syncsNeeded == 0:
+		res.counters["fault_case_does_not_converge_without_fault_either"]++
+	case len(items) == 0:
+		res.counters[fmt.Sprintf("fault_extra_syncs_to_converge:%+d", n-base.syncsNeeded)]++
+	default:
+		res.addViol("c15-never-converges-after-single-failure"+under, fmt.Sprintf("without the fault the case converges after %d full "+
+			"sync(s); with %s failing once in %s it still differs from a fresh manager after %d further fault-free full syncs: %v",
+			base.syncsNeeded, failedOp, f.Target, maxSyncs, firstN(items, 3)),
+			map[string]interface{}{"failed_operation": failedOp, "differences_to_fresh_manager": firstN(items, 12), "filter_now": strings.Split(e.ipt.Dump("filter"), "\n")})
 	}
 	return res
 }
